@@ -53,6 +53,10 @@ def catalogue(tier):
         for s in shp:
             nd = len(s)
             axes = [None] + list(range(-nd, nd)) + [list(c) for r in (2, 3) for c in itertools.combinations(range(nd), r)]
+            # tuple axes with negative members (each tuple once with every member counted from the right)
+            axes += [[a - nd for a in c] for r in (1, 2) for c in itertools.combinations(range(nd), r)]
+            if nd >= 2:
+                axes += [[0, -1]]
             for ax in axes:
                 for kd in (False, True):
                     out.append(["reduction", op, list(s), ax, kd])
